@@ -661,7 +661,9 @@ class PurityWorld:
         if m.pop("mutated", False):
             trans = "same_buffer_new_values+" + trans
         if rp:
-            trans = "reparam(" + ",".join(rp) + ")+" + trans
+            trans = "reparam+" + trans
+            for k in rp:
+                self.count("reparam_then_refit_compared:" + k)
         self.probe("refit_compared:" + trans)
         a, b = public_state(obj), public_state(tw)
         only = sorted(set(a) ^ set(b))
@@ -739,6 +741,23 @@ class PurityWorld:
         elif isinstance(res, (int, float, np.integer, np.floating)):
             self.log.add(res)
         tag = op.get("tag", meth)
+        if op.get("again") and tag in m["reads"] and not (op.get("env") or {}).get("interrupt"):
+            # the same read on the same fitted object, later in the process history (after other
+            # reads, other objects' fits, another ambient RNG state): a read must not depend on
+            # or change anything that an identical later read can see
+            d = same(m["reads"][tag], res, rtol=1e-9, path=meth)
+            if d:
+                self.violate(
+                    "read_repeat_differs",
+                    kind,
+                    f"{meth}() called twice with the same arguments on the same fitted object gives different results "
+                    f"({op.get('again')}): {d}",
+                    method=meth,
+                    between=op.get("again"),
+                )
+            else:
+                self.count("read_repeats_equal")
+            self.probe("read_repeated:" + str(op.get("again")))
         m["reads"][tag] = res
         if meth == "fit_transform":
             m["fits"].append({"args": op["args"], "ok": True, "env": op.get("env")})
